@@ -33,6 +33,11 @@
     the declaration, then `nsFinish` with the written names and the alias token": one
     `on_namespace_alias` carrying `A` and `[n1, …, nk]` (a leading `::` kept as a first name,
     as the implementation does), or the documented errors (`Theorems/NsForm.lean`).
+  * `C01_toplevel_using_namespace` (`Theorems/TopLevel.lean`): the whole declaration through one
+    iteration of `parse()`'s loop, on the regenerated rules / dispatch table / keep set: with an
+    active visitor that does not raise here, `using namespace n1 :: … :: nk ;` delivers exactly
+    ONE callback — `on_using_namespace [n1, …, nk]` for the innermost open block — consumes
+    exactly the declaration and changes nothing else but the block's recorded location.
 -/
 import CxxModel.Tables
 import CxxModel.Props.C04
@@ -43,6 +48,7 @@ import CxxModel.Theorems.UsingDir
 import CxxModel.Theorems.NsForm
 import CxxModel.Theorems.UsingDecl
 import CxxModel.GenCfg
+import CxxModel.Theorems.TopLevel
 namespace Cxx
 
 theorem C01_dispatch : Gen.dispatchTable.length = 20 ∧ Gen.dispatchTable.lookup ";" = some "<lambda:Constant(None)>" ∧
@@ -167,5 +173,26 @@ theorem C01_using_namespace_decl (env : Env) (F : Nat) (c : P.Core) (tok : CTok)
           let _ ← P.nextTokenMustBe [";"]
           pure ()) w' :=
   using_namespace_decl env F c tok doxygen kw first pairs term w bmid b' blk rest hstack hk hkw hf hall hy htok hterm hF
+
+section
+open P
+
+theorem C01_toplevel_using_namespace (env : Env) (hc : env.cfg = genLexCfg) (F : Nat) (c : Core) (w : World)
+    (kwU kwN first : Tok) (pairs : List (Tok × Tok)) (semi : Tok) (b' : Buf)
+    (blk : Block) (rest : List Block) (hstack : w.stack = blk :: rest) (hk : blk.view.kind ≠ .cls)
+    (hmu : w.muted = false) (hfa : ¬ env.faultAt = some w.delivered)
+    (hU : kwU.type = "using") (hN : kwN.type = "namespace") (hf : first.type = "NAME")
+    (hall : ∀ p ∈ pairs, p.1.type = "DBL_COLON" ∧ p.2.type = "NAME") (hsemi : semi.type = ";")
+    (hy : Yields env.cfg w.buf (kwU :: ((kwN :: first :: pairs.flatMap (fun p => [p.1, p.2])) ++ [semi])) b')
+    (hF : pairs.length + 1 ≤ F) :
+    ∃ (w2 : World) (ct : CTok) (ev : Event), interp env (mainBody F c none) w = (w2, .ok (.inl none)) ∧ w2.buf = b' ∧
+      ct.value = kwU.value ∧
+      w2.stack = { blk with loc := .tok ct.sidx } :: rest ∧ w2.events = w.events ++ [ev] ∧
+      ev.kind = .item (.usingNamespace (first.value :: pairs.map (·.2.value))) ∧ ev.stateId = blk.id ∧
+      ev.parentId = rest.head?.map (·.id) ∧
+      w2.delivered = w.delivered + 1 ∧ w2.anon = w.anon ∧ w2.muted = false :=
+  toplevel_using_namespace env (by rw [hc]; exact gen_rules_progress) F c w kwU kwN first pairs semi b' blk rest hstack hk hmu hfa hU hN hf hall hsemi hy hF
+
+end
 
 end Cxx
